@@ -312,7 +312,7 @@ PROPS = {
         title='Zinc text conforms to the Project Haystack grammar in both directions',
         verus=[('u_zparse', [r'^parse_str_escape$', r'^parse_str_unicode_escape$', r'^parse_str$', r'^Lexer::read$', r'^parse_literal$', r'^parse_id$', r'^lemma_lit_run_bytes$', r'^parse_unit$', r'^is_unit_char$', r'^parse_uri$', r'^parse_time_zone$']),
                ('u_enc', [r'^write_quoted_str$', r'^write_str$', r'::to_zinc$', r'::zinc_encode$', r'^list_to_zinc$', r'^write_dict_tags$', r'^Column::to_zinc$', r'^Dict::to_zinc$', r'^Grid::to_zinc$', r'^Value::to_zinc$', r'^enc_(value|items|tag|tags|meta|col|cols|cells|rows|grid)$', r'^grid_head$', r'^grid_mid$', r'^dict_find$']),
-               ('u_zgram', [r'^Parser::parse_value$', r'^Parser::parse_nested_value$', r'^parse_list$', r'^parse_dict$', r'^parse_dict_parts$', r'^lemma_(li|di)_push$', r'_prefix$'])],
+               ('u_zgram', [r'^Parser::parse_value$', r'^Parser::parse_nested_value$', r'^parse_list$', r'^parse_dict$', r'^parse_dict_parts$', r'^RowParser::parse_row$', r'^RowParser::consume_end$', r'^parse_nested_grid_end$', r'^parse_grid_ver$', r'^parse_grid_meta$', r'^lemma_(li|di|ri)_push$', r'_prefix$'])],
         kani=[dict(harness='k_scanner_classes', klass='complete', schema=['u8'], family=None, target='Scanner::is_* byte classes'),
               dict(harness='k_unit_char_class', klass='complete', schema=['u8'], family=None, target='zinc number::is_unit_char'),
               dict(harness='k_u8_classes', klass='complete', schema=['u8'], family=None, target='u8::is_ascii_*')],
@@ -335,12 +335,18 @@ PROPS = {
                     'parse_dict_parts are proved to return a value denoted by a parse tree whose tokens are exactly the tokens they consumed -- a list is [ items '
                     'and commas ] and its elements are what the items denote, in order, none dropped or duplicated; a dict is { tags and commas } and is the empty '
                     'dict with each tag inserted in the order written, with the value its own parse tree denotes, or Marker when no value is written; a scalar token '
-                    'denotes its value and the end of input Null. The lexer is seen through its contract there (proved on the real lexer in u_zparse) plus a '
-                    'history variable for the tokens read; grids are opaque in that unit.'),
+                    'denotes its value and the end of input Null. Grid parts, same unit: the version line is the identifier ver, a colon and a Str token whose '
+                    'text is the version returned; the grid meta is a run of tags read exactly as inside a dict; a row is cells and commas up to a newline -- the '
+                    'k-th comma moves to column k, each cell is inserted under the name of the column it stands in with the value its parse tree denotes, a '
+                    'column without a cell gets no tag, a cell beyond the last column is an error (real bodies of parse_grid_ver, parse_grid_meta, '
+                    'RowParser::parse_row, consume_end, parse_nested_grid_end). The lexer is seen through its contract there (proved on the real lexer in '
+                    'u_zparse) plus a history variable for the tokens read; the column line and the assembly of the grid (parse_grid_columns, parse_grid_content, '
+                    'the row iterator) are not under a grammar contract.'),
         not_decided=('number spelling '
                      '(the string handed to str::parse::<f64>); the text core::fmt / chrono produce for numbers, dates, times, coordinates and the '
-                     'capitalised XStr type (uninterpreted functions of the value); the reader side of grid layout (version line, meta, columns, rows and cells) '
-                     '(the grid decoder is proved panic-free and terminating, not against the grammar; that commas appear only where the grammar allows them is '
+                     'capitalised XStr type (uninterpreted functions of the value); the column line of a grid and the assembly of a grid from its parts '
+                     '(parse_grid_columns silently skips a column name that is followed by a non-identifier token, so no contract of the form "the result spells '
+                     'the tokens read" holds for it; proved panic-free and terminating only; that commas appear only where the grammar allows them is '
                      'not part of the list/dict statement; the bounded enumerator enum:zinc-spellings checks 43 '
                      'alternative spellings -- number forms, \\u escapes, list/dict separators, CRLF line endings incl. at end of input, nested grids -- '
                      'against the plain spelling of the same value); Dict is seen through its entry list in key order. The unit class tests `> 128`, i.e. excludes '
@@ -413,7 +419,7 @@ PROPS = {
                              r'^parse_str$', r'^parse_str_unicode_escape$', r'^lemma_str_body_plain$', r'^lemma_hex4_value$', r'^lemma_str_body_char$',
                              r'^lemma_str_body_enc$', r'^lemma_str_roundtrip$', r'^parse_ref$', r'^lemma_ref_run_prefix$', r'^lemma_ref_roundtrip$', r'^parse_uri$', r'^lemma_uri_body_plain$', r'^lemma_uri_body_char$', r'^lemma_uri_body_enc$', r'^lemma_uri_roundtrip$', r'^parse_symbol$', r'^lemma_symbol_roundtrip$', r'^parse_xstr_body$', r'^lemma_lit_run_prefix$', r'^lemma_xstr_roundtrip$']),
                ('u_enc', [r'^write_quoted_str$', r'^Str::to_zinc$', r'^Ref::to_zinc$', r'^Uri::to_zinc$', r'^Symbol::to_zinc$', r'^XStr::to_zinc$', r'^lemma_str_escape_inverse$', r'^Marker::to_zinc$', r'^Remove::to_zinc$', r'^Na::to_zinc$', r'^Bool::to_zinc$', r'^Number::to_zinc$']),
-               ('u_zgram', [r'^Parser::parse_value$', r'^Parser::parse_nested_value$', r'^parse_list$', r'^parse_dict$', r'^parse_dict_parts$'])],
+               ('u_zgram', [r'^Parser::parse_value$', r'^Parser::parse_nested_value$', r'^parse_list$', r'^parse_dict$', r'^parse_dict_parts$', r'^RowParser::parse_row$', r'^parse_grid_ver$', r'^parse_grid_meta$'])],
         kani=[dict(harness='k_zinc_keywords', klass='complete', schema=['u8'], family=None, target='to_zinc of Marker/Remove/Na/Bool')],
         witness=['enum:zinc-roundtrip-scalars', 'enum:zinc-escape'],
         design_ref='DESIGN.md section 4, C01',
